@@ -18,7 +18,9 @@ func vr(src string, v interface{}) *xnode  { return &xnode{kind: xLit, src: src,
 func c03Operands(reduced bool) []*xnode {
 	l := []interface{}{float64(1), "a"}
 	all := []*xnode{lit("1", float64(1)), lit("2", float64(2)), lit("0", float64(0)), lit("2.5", 2.5), lit(`"a"`, "a"), lit(`"ab"`, "ab"), lit(`"1"`, "1"),
-		lit("true", true), lit("false", false), lit("null", nil), vr("n", float64(3)), vr("s", "a"), vr("l", l)}
+		lit("true", true), lit("false", false), lit("null", nil), vr("n", float64(3)), vr("s", "a"), vr("l", l),
+		// quoted string literals are not constants: {{...}} is interpolated
+		{kind: xLit, src: `"^{{s}}"`, val: "^a"}, {kind: xLit, src: `"{{s}}b"`, val: "ab"}}
 	if reduced {
 		return []*xnode{all[0], all[1], all[2], all[4], all[7], all[9], all[12]}
 	}
@@ -109,7 +111,7 @@ func c03Check(c *Ctx, tree *xnode, flat []ftok) {
 
 func init() {
 	register(&Part{Prop: "C03", Name: "operator-pairs", Quick: 16, Thor: 32,
-		Desc: "all x op y over 13 operands x 19 operators; all x op1 y op2 z unparenthesised (tree from the stated precedence table) and in both parenthesisations over 7 operands incl. every kind (number, zero, string, boolean, null, list); prefix -, +, not on operands and in front of pairs; each in 2-3 layouts (spaces, newline after each operator, redundant parentheses around every sub-term); thorough adds all operator triples over 4 operands",
+		Desc: "all x op y over 15 operands (incl. two interpolating string literals) x 19 operators; all x op1 y op2 z unparenthesised (tree from the stated precedence table) and in both parenthesisations over 7 operands incl. every kind (number, zero, string, boolean, null, list); prefix -, +, not on operands and in front of pairs; each in 2-3 layouts (spaces, newline after each operator, redundant parentheses around every sub-term); thorough adds all operator triples over 4 operands",
 		Rule: "odometer over operands x operators x forms x layouts; non-trivial = the reference defines the result (value or error); Unspecified cases are counted as skipped",
 		Run: func(c *Ctx) {
 			ops := c03Operands(false)
